@@ -300,6 +300,11 @@ def run_padded_cds(case):
   if case['call'] == 'kwargs':
     it = fedjax.padded_batch_client_datasets(
         stream, batch_size=b, num_batch_size_buckets=k)
+  elif case['call'] == 'override':
+    # documented form: hparams object overridden by keyword arguments
+    it = fedjax.padded_batch_client_datasets(
+        stream, fedjax.PaddedBatchHParams(batch_size=b + 3, num_batch_size_buckets=k + 1),
+        batch_size=b, num_batch_size_buckets=k)
   else:
     it = fedjax.padded_batch_client_datasets(
         stream, fedjax.PaddedBatchHParams(batch_size=b, num_batch_size_buckets=k))
@@ -317,6 +322,10 @@ def run_padded_fd(case):
   if case['call'] == 'kwargs':
     it = fedjax.padded_batch_federated_data(
         fd, batch_size=b, num_batch_size_buckets=k)
+  elif case['call'] == 'override':
+    it = fedjax.padded_batch_federated_data(
+        fd, fedjax.PaddedBatchHParams(batch_size=b + 3, num_batch_size_buckets=k + 1),
+        batch_size=b, num_batch_size_buckets=k)
   else:
     it = fedjax.padded_batch_federated_data(
         fd, fedjax.PaddedBatchHParams(batch_size=b, num_batch_size_buckets=k))
@@ -711,7 +720,7 @@ def padded_cases(draw, tier, federated):
       'features': draw(feature_lists()),
       'preps': draw(st.lists(st.sampled_from(PREPS), max_size=2)),
       'explicit_prep': draw(st.booleans()),
-      'call': draw(st.sampled_from(['kwargs', 'hparams'])),
+      'call': draw(st.sampled_from(['kwargs', 'hparams', 'override'])),
   }
   if federated:
     case['insert_order'] = draw(st.permutations(list(range(len(sizes)))))
